@@ -50,6 +50,8 @@ def load_both(text, endian, align, pointer, compiled, then=None):
                 cs.resolve("first")(bytes.fromhex(step[1]))
             except Exception:  # noqa: BLE001
                 pass
+        elif step[0] == "add_field":       # ("add_field", name, type name, bits, offset): a member added to `main` with a set offset
+            cs.resolve("main").add_field(step[1], cs.resolve(step[2]), bits=step[3], offset=step[4])
         else:
             t, al = step
             cs.load(t, compiled=compiled, align=al)
@@ -225,6 +227,41 @@ def check(run: Run) -> None:
                         explained.add(id(it))
                     run.report("C03/" + probs[0]["what"].split(" ")[0] + "/mixed-modes", {**c.describe(), "ops": [{"op": "compiled vs interpreted", "problems": probs[:3]}]})
 
+    # members added with a SET offset (add_field(..., offset=n)): before, at and beyond the end of the previous member, so a run of scalars
+    # has to be split, padded or left alone; nested structures and bit fields in between
+    n_setoff = 0
+    OFF_TYPES = ["uint8", "uint16", "uint32", "char", "int24", "N", "E8", "float"]
+    for i in range(400 if thorough else 120):
+        k = rng.randrange(1, 5)
+        adds, run_off = [], 2
+        for j in range(k):
+            tn = rng.choice(OFF_TYPES)
+            off = rng.choice([None, None, run_off, max(0, run_off - rng.randrange(1, 4)), run_off + rng.randrange(1, 4), rng.randrange(0, 12)])
+            bits = rng.choice([3, 5]) if tn in ("uint8", "uint16") and rng.random() < 0.15 else None
+            adds.append(("add_field", f"f{j}", tn, bits, off))
+            run_off = (off if off is not None else run_off) + {"uint8": 1, "uint16": 2, "uint32": 4, "char": 1, "int24": 3, "N": 5, "E8": 1, "float": 4}[tn]
+        text = PRELUDE + "struct main { uint16 a; };"
+        align = i % 5 == 0
+        endian = rng.choice(["<", ">"])
+        datas = [F.random_data(rng, 40), bytes(range(1, 41))] + [bytes(range(1, 41))[:q] for q in rng.sample(range(0, 16), 2)]
+        n_oracle += len(datas)
+        n_setoff += 1
+        probs = compare_readers(text, endian, align, None, datas, then=adds)
+        c = Case(text, endian=endian, align=align, compiled=True, history=[["add_field", "main", a[1], a[2], a[3], a[4]] for a in adds])
+        c.ops = [("layout",)] + [("parse", d, 0) for d in datas[:3]]
+        try:
+            its = build_items(c)
+        except RuntimeError as e:
+            failures += 1
+            run.report("C03/unexpected-exception", {**c.describe(), "ops": [{"op": "parse", "observed": str(e.__cause__ or e)[:300], "expected": "a value or EOFError"}]})
+            continue
+        items += its
+        if probs:
+            failures += 1
+            for it in its:
+                explained.add(id(it))
+            run.report("C03/" + probs[0]["what"].split(" ")[0] + "/set-offsets", {**c.describe(), "ops": [{"op": "compiled vs interpreted", "problems": probs[:3]}]})
+
     mism = run_items(run, items)
     report_unexplained(run, mism, explained, "corr_compiled (compiled reader vs Model.Reader / Model.Layout)")
     F.obligation_fallback(run, ok, bool(failures or mism))
@@ -234,7 +271,7 @@ def check(run: Run) -> None:
                  "null-terminated arrays} x endianness x {packed, aligned} x pointer width; plus random definitions; inputs: full, structured and truncated"
                  % ("all" if thorough else "500 sampled"),
                  {"oracle_only_checks": n_oracle, "definitions": len(texts), "exhaustive_sequences": n_exh, "classes_compiled": n_compiled, "classes_fallen_back": n_fallback,
-                  "oracle_failures": failures, "mixed_alignment_mode_cases": n_mixed, "endian_switch_cases": n_switch}, exhaustive=True)
+                  "oracle_failures": failures, "mixed_alignment_mode_cases": n_mixed, "endian_switch_cases": n_switch, "set_offset_cases": n_setoff}, exhaustive=True)
     run.assumptions += ["NaN floats are not compared", "unions are never compiled (Compiler.compile returns them unchanged): they take part as members only"]
 
 
@@ -242,7 +279,8 @@ def replay(rep: dict) -> int:
     c = F.replay_case(rep)
     probs = rep["ops"][0].get("problems") or []
     datas = [bytes.fromhex(p["data"]) for p in probs if "data" in p] or [bytes(range(1, 65))]
-    then = [(h[1], h[2]) if h[0] == "load_align" else tuple(h) for h in c.history if h[0] in ("load_align", "set_endian", "warm", "warmfirst")]
+    then = [(h[1], h[2]) if h[0] == "load_align" else (("add_field", h[2], h[3], h[4], h[5] if len(h) > 5 else None) if h[0] == "add_field" else tuple(h))
+            for h in c.history if h[0] in ("load_align", "set_endian", "warm", "warmfirst", "add_field")]
     now = compare_readers(c.text, c.endian, c.align, c.pointer, datas, then=then)
     print("compiled vs interpreted:", now or "equivalent on the replayed inputs")
     return 1 if now else 0
